@@ -153,6 +153,7 @@ func (w *World) run() {
 	rand.Seed(w.c.Cfg.RandSeed)
 	curNameSet = w.c.Cfg.NameSet
 	curValExtra = 0
+	cmpClosures = w.c.Cfg.RandSeed%3 != 0
 	if w.c.Cfg.Framed {
 		curValExtra = 4
 	}
@@ -308,7 +309,7 @@ func (w *World) installCmps(st *g.Store, ms *MState) {
 			if st.GetCollection(name) == nil {
 				continue // the contents oracle reports the missing collection
 			}
-			st.SetCollection(name, CmpFunc(mc.Cmp))
+			st.SetCollection(name, AppCmp(mc.Cmp))
 			w.ev["cmp_installed_by_setcollection"]++
 		}
 	}
@@ -405,7 +406,7 @@ func (w *World) collFor(h *Handle, ci int, create bool) (*g.Collection, *MColl) 
 			}
 			return nil, nil
 		}
-		h.st.SetCollection(name, CmpFunc(w.c.Cfg.DefCmp))
+		h.st.SetCollection(name, AppCmp(w.c.Cfg.DefCmp))
 		mc = &MColl{Cmp: w.c.Cfg.DefCmp, Items: map[string]MItem{}}
 		h.m.Colls[name] = mc
 		w.ev["autocreate"]++
@@ -697,7 +698,7 @@ func (w *World) exec(op *Op) (done bool) {
 		if mc != nil && mc.Cmp != cmp && len(mc.Items) > 1 {
 			cmp = mc.Cmp // a different order over existing items is a caller error
 		}
-		var kc g.KeyCompare = CmpFunc(cmp)
+		var kc g.KeyCompare = AppCmp(cmp)
 		if cmp == CmpBytes && op.N%2 == 1 {
 			kc = nil // nil means "the default, bytes.Compare", for new and for existing names
 			w.ev["setcoll_nil_compare"]++
